@@ -115,7 +115,9 @@ WriteAll(kk, S, todo) ==
   IF todo = {} THEN kk
   ELSE LET L == Min(todo) IN WriteAll(IF kk.hp[L] THEN [kk EXCEPT !.pipe[L] = Append(@, S)] ELSE kk, S, todo \ {L})
 
-RaiseK(kk, S) == IF kk.disp[S].h = "tbox" THEN WriteAll(kk, S, kk.ctx[S].pipes) ELSE kk
+\* the handler's copy of the descriptor set; seeded defect "cap1": a fixed-size copy buffer that silently drops the rest
+Snapshot(P) == IF Bug = "cap1" /\ P # {} THEN {Min(P)} ELSE P
+RaiseK(kk, S) == IF kk.disp[S].h = "tbox" THEN WriteAll(kk, S, Snapshot(kk.ctx[S].pipes)) ELSE kk
 OldCalls(S) == IF Bug = "skipold" THEN 0
                ELSE IF Bug = "skipplain" /\ k.ctx[S].old.h = "plain" THEN 0
                ELSE IF IsFunc(k.ctx[S].old.h) THEN 1 ELSE 0
@@ -191,7 +193,7 @@ RaiseBegin(S) ==
 HandlerOld ==           \* SignalHandlerFunc: "run the old handler first"
   /\ h.pc = "old"
   /\ g' = [g EXCEPT !.sent = @ + OldCalls(h.s)]
-  /\ h' = [h EXCEPT !.pc = "write", !.todo = k.ctx[h.s].pipes]
+  /\ h' = [h EXCEPT !.pc = "write", !.todo = Snapshot(k.ctx[h.s].pipes)]
   /\ UNCHANGED <<cfg, kind, st, k, op, fired>>
 
 \* Intended (and, since fix 809fdc6, actual) behaviour: the descriptors were copied before the first write (h.todo is
@@ -254,7 +256,7 @@ SCreate(e) == Create(e)
 SRaise(S) ==            \* the delivery up to the return of the handler
   /\ Quiescent /\ NoOps /\ RaiseOK /\ k.disp[S].h # "dfl"
   /\ IF k.disp[S].h = "tbox"
-     THEN /\ k' = WriteAll(k, S, k.ctx[S].pipes)
+     THEN /\ k' = WriteAll(k, S, Snapshot(k.ctx[S].pipes))
           /\ g' = [sig |-> S, want |-> OnFor(S), got |-> [e \in Events |-> 0], sent |-> OldCalls(S), raises |-> Bump,
                    bad |-> g.bad \/ \E L \in k.ctx[S].pipes : ~k.hp[L]]
      ELSE /\ k' = k
